@@ -390,6 +390,31 @@ class bekern_tokenize_notes:
         return result == basic_spec(token, in_cats(self))
 
 
+@contract(TZ + 'BekernTokenizer.tokenize', props=ALLP + ['C12'], name='bekern_tokenize_emptied_note', use_at_calls=False)
+class bekern_tokenize_emptied_note:
+    """The selections outside C04's own domain, stated for C13 (the options compose: the category filter deletes, then the encoding is
+    a view of what is left): a single note or rest of which no duration / pitch / rest part is selected has nothing left in the basic
+    encodings, which carry no signifiers -- the text is empty when signifiers are selected (the exporter writes the placeholder for
+    it), and the note's own placeholder when nothing of the note is selected at all."""
+    assumes = (SEPARATOR_FREE,)
+
+    def inputs(g):
+        cats = g.enum_set('cats', TokenCategory)
+        return {'self': g.new(BekernTokenizer, {'token_categories': cats}, None), 'token': mk_clean_note(g, 'note')}
+
+    modifies = ()
+
+    def requires(self, token):
+        return not keeps_some_pd(token, in_cats(self))
+
+    def post_nothing_left(result, self, token):
+        keep = in_cats(self)
+        if len([s for s in token.decoration_subtokens if keep(s.category)]) > 0:
+            return result == ''
+        # (no part of the note is selected at all: the note's own export already is the placeholder)
+        return result == export_spec(token, keep, None)
+
+
 @contract(None, props=ALLP, bounded='random chords of 4..7 notes, random sub-tokens from the corpus, random category selections (the proved contract covers chords of up to three notes)')
 class bekern_large_chords:
     """the basic view of a chord of any size keeps every note (C04)"""
